@@ -319,6 +319,9 @@ class SmtpRelayClient(RelayPoolClient):
                 if self._check_server_timeout() and reused:
                     self.queue.appendleft((result, envelope))
                     break
+                # What the server said about an earlier message is not the
+                # answer to this one.
+                self.client.last_error = None
                 self._deliver(result, envelope)
                 if self.idle_timeout is None:
                     break
